@@ -543,6 +543,9 @@ func cmdCodec(prop string, n int, seed uint64, driver, out string) (*Result, err
 	prof := baseProfile(prop)
 	prof.PMalformed = 0.05
 	prof.PKindInTargets = 0.15
+	if prop == "C17" {
+		prof.PCrossNames = 0.05
+	}
 	res := &Result{Prop: prop, Mode: "codec", Seed: seed, Distribution: map[string]int{}}
 	res.Rule = "flag and segment documents from the structured generator, decorated (optional properties, nulls, numeric extremes), noised (property order, unknown properties at any depth, null lists), with omissions, duplicates and wrong types; non-trivial = accepted document that carries >=1 optional/non-default property or noise; distinct by hash of the document"
 	type cc struct {
